@@ -49,7 +49,7 @@ func safeParse(s string) (l *label.Label, err error, panicked any) {
 
 func inScope(l *label.Label) bool { return l.Name != "" || l.Kind == "" }
 
-var pkgs = []string{"//", "//a", "//a/b"}
+var pkgs = []string{"//", "//a", "//a/b", "//" + strings.Repeat("deep-package-name/", 9) + "end", "//" + strings.Repeat("x", 240)}
 
 type canonEntry struct{ raw, pkg string }
 
@@ -272,6 +272,12 @@ func TestC12Labels(t *testing.T) {
 		switch m := rapid.IntRange(0, 4).Draw(rt, "mode"); {
 		case m == 0:
 			s = rapid.String().Draw(rt, "any")
+		case m == 4 && rapid.Bool().Draw(rt, "long"):
+			// no length bound in the statement: long names, packages and chains of sub-packages
+			seg := rapid.SampledFrom([]string{"sub-package", "a", "nested_dir.v2", "x"}).Draw(rt, "seg")
+			k := rapid.SampledFrom([]int{8, 30, 100, 260, 1000}).Draw(rt, "seglen")
+			long := strings.Repeat(seg+"/", k/len(seg)+1)
+			s = rapid.SampledFrom([]string{"", "//", ":", "//a:", "h/p//"}).Draw(rt, "prefix") + long + rapid.SampledFrom([]string{"", ":t", ":" + strings.Repeat("n", k), "end:t"}).Draw(rt, "suffix")
 		case m == 4:
 			// fragments of the label grammar, so that multi-character tokens (major-version suffixes,
 			// kinds) appear and repeat
